@@ -20,6 +20,8 @@ import (
 	"fmt"
 	"go/types"
 	"strings"
+
+	"golang.org/x/tools/go/ssa"
 )
 
 type shape struct {
@@ -358,8 +360,50 @@ func (r *rwRT) kindConst(name string) AV {
 	return Const{obj.Val()}
 }
 
+// ruleBlockInvariant backs the assumption K1 uses for package rewriter: a
+// *block is only allocated by one constructor, which always gives it an AST block.
+func (r *rwRT) ruleBlockInvariant() {
+	c := r.c
+	var sites []string
+	okCtor := true
+	for _, f := range r.w.FuncsOf(pathRw) {
+		for _, b := range f.Blocks {
+			for _, ins := range b.Instrs {
+				al, ok := ins.(*ssa.Alloc)
+				if !ok {
+					continue
+				}
+				if nt, ok := al.Type().Underlying().(*types.Pointer).Elem().(*types.Named); ok && nt.Obj().Name() == "block" && nt.Obj().Pkg().Path() == pathRw {
+					sites = append(sites, relName(f))
+					// the field named block must be stored with a fresh value in the same function
+					stored := false
+					for _, ref := range *al.Referrers() {
+						if fa, ok := ref.(*ssa.FieldAddr); ok && fieldName(fa.X.Type(), fa.Field) == "block" {
+							for _, r2 := range *fa.Referrers() {
+								if st, ok := r2.(*ssa.Store); ok {
+									if call, ok := st.Val.(*ssa.Call); ok && call.Call.StaticCallee() != nil && neverNil(call.Call.StaticCallee(), 0) {
+										stored = true
+									}
+									if _, ok := st.Val.(*ssa.Alloc); ok {
+										stored = true
+									}
+								}
+							}
+						}
+					}
+					if !stored {
+						okCtor = false
+					}
+				}
+			}
+		}
+	}
+	c.check(len(sites) >= 1 && okCtor, "RW.INV.BLOCK", "every block carries an AST block", "", "block objects are allocated in "+strings.Join(sites, ", ")+" with a freshly built AST block (the analysis relies on block.block != nil)", "a block object is allocated without an AST block: the non-nil assumption of the analysis does not hold ("+strings.Join(sites, ", ")+")")
+}
+
 func (r *rwRT) ruleKindTab() {
 	c := r.c
+	r.ruleBlockInvariant()
 	c.min("RW.KINDTAB", 3)
 	names := []string{"kindTrival", "kindDelay", "kindIf", "kindSwitch", "kindNormal", "kindYield", "kindCombine", "kindFor"}
 	kinds := map[string]AV{}
